@@ -27,6 +27,9 @@ type SemiJoin struct {
 	optimized   bool
 	reverse     bool
 	sels1       Sels // from incoming Select, added to source1 probe in reverse mode
+	// reqCols is the columns of a ReqUnique.
+	// The sources are only set up to Lookup (or Select) on these.
+	reqCols []string
 
 	revState      state
 	indexed       bool
@@ -258,6 +261,10 @@ func (sj *SemiJoin) setApproach(req Require, approach any, tran QueryTran) {
 		sj.source2 = SetApproach(sj.source2, ap.req2, tran)
 	}
 	sj.header = sj.source1.Header()
+	sj.reqCols = nil
+	if req.use == ReqUnique {
+		sj.reqCols = req.cols
+	}
 }
 
 func (sj *SemiJoin) Rewind() {
@@ -463,6 +470,10 @@ func (sj *SemiJoin) Select(sels Sels) {
 
 func (sj *SemiJoin) Lookup(th *Thread, sels Sels) Row {
 	sj.nlooks++
+	// Extra sels are ignored (see Query.Lookup).
+	// They must not reach Select (reverse passes the by columns to source2)
+	// because the sources were not set up for them.
+	sels = reqSels(sj.reqCols, sels)
 	if sj.reverse {
 		return lookupViaSelectGet(sj, th, sels)
 	}
